@@ -1020,6 +1020,27 @@ func (r *UnitRun) evalSlicesPkg(st *State, name string, e *ast.CallExpr) Val {
 		return Val{K: KBool, T: fmt.Sprintf("(exists ((%s Int)) (and (<= 0 %s) (< %s %s) (= %s %s)))", k, k, k, a.S.Len,
 			r.srcElemTerm(st, a.S, k), x.T), Go: types.Typ[types.Bool]}
 	}
+	if name == "Insert" && len(e.Args) == 3 && !e.Ellipsis.IsValid() {
+		// slices.Insert(s, i, v): when s has spare capacity the elements from i on are shifted IN PLACE (seed C10-5), so the
+		// call is an element write to s: allowed only for a slice object this call owns. The result is modelled as a fresh
+		// slice (prefix, v, shifted suffix).
+		a, iv, v := r.evalExpr(st, e.Args[0]), r.evalExpr(st, e.Args[1]), r.evalExpr(st, e.Args[2])
+		if scalar(a) && iv.K == KInt {
+			site := fmt.Sprintf("insert%d", r.callOrd[e])
+			owned := a.S.Obj != nil && !a.S.Obj.param && !st.frozen[a.S.Obj]
+			r.obligeStatic(st, "frame", site, owned, e, "slices.Insert may shift the elements of its first argument in place: the slice must be an object allocated in this call")
+			r.oblige(st, "index", site, and(sx("<=", "0", iv.T), sx("<=", iv.T, a.S.Len)), e, "slices.Insert index in range", nil)
+			es := a.S.ESrt
+			o := r.newObj("inserted", es, OwnFresh)
+			na := r.fresh("inserted", fmt.Sprintf("(Array Int %s)", es))
+			qcount++
+			k := fmt.Sprintf("k!q%d", qcount)
+			st.assume(fmt.Sprintf("(forall ((%s Int)) (! (=> (and (<= 0 %s) (<= %s %s)) (= (select %s %s) (ite (< %s %s) %s (ite (= %s %s) %s %s)))) :pattern ((select %s %s))))",
+				k, k, k, a.S.Len, na, k, k, iv.T, r.srcElemTerm(st, a.S, k), k, iv.T, r.toTerm(st, r.convertTo(st, v, a.S.Elem), a.S.Elem), r.srcElemTerm(st, a.S, sub(k, "1")), na, k))
+			st.arrs[o] = na
+			return Val{K: KSlice, S: &SliceVal{Obj: o, Off: "0", Len: add(a.S.Len, "1"), Cap: "", Elem: a.S.Elem, ESrt: es}, Go: a.Go}
+		}
+	}
 	panic(toolLimit("call of external function slices." + name))
 }
 
